@@ -139,9 +139,11 @@ func c14AddTypes(r *rand.Rand, base *model.Schema, tag string) c14Load {
 // c14ValidFragments produces definitions that are valid on top of the base schema (and of each other when names are fresh).
 func c14ValidFragments(r *rand.Rand, base *model.Schema, tag string, n int) []string {
 	var out []string
-	var objs, enums, inputs, unions, ifaces []string
+	var objs, enums, inputs, unions, ifaces, scalars []string
 	for _, t := range base.Types {
 		switch t.Kind {
+		case model.Scalar:
+			scalars = append(scalars, t.Name)
 		case model.Object:
 			objs = append(objs, t.Name)
 		case model.Enum:
@@ -156,7 +158,35 @@ func c14ValidFragments(r *rand.Rand, base *model.Schema, tag string, n int) []st
 	}
 	for i := 0; i < n; i++ {
 		id := fmt.Sprintf("%s%d", tag, i)
-		switch r.Intn(7) {
+		switch r.Intn(10) {
+		case 7:
+			// a directive (defined in the same document) put on an EXISTING type of any kind through an extension
+			dir := fmt.Sprintf("directive @xd%s(w: Int = 2) on SCALAR | ENUM | UNION | INPUT_OBJECT | INTERFACE | OBJECT", id)
+			var ext string
+			switch k := r.Intn(6); {
+			case k == 0 && len(scalars) > 0:
+				ext = fmt.Sprintf("extend scalar %s @xd%s", scalars[r.Intn(len(scalars))], id)
+			case k == 1 && len(enums) > 0:
+				ext = fmt.Sprintf("extend enum %s @xd%s(w: 5) { XD%s }", enums[r.Intn(len(enums))], id, strings.ToUpper(id))
+			case k == 2 && len(unions) > 0:
+				ext = fmt.Sprintf("type NewXU%s { u: Int }\nextend union %s @xd%s = NewXU%s", id, unions[r.Intn(len(unions))], id, id)
+			case k == 3 && len(inputs) > 0:
+				ext = fmt.Sprintf("extend input %s @xd%s { xd%s: String }", inputs[r.Intn(len(inputs))], id, id)
+			case k == 4 && len(ifaces) > 0:
+				ext = fmt.Sprintf("scalar NewXS%s\nextend scalar NewXS%s @xd%s", id, id, id)
+			default:
+				ext = fmt.Sprintf("extend type %s @xd%s { xd%s: Int }", objs[r.Intn(len(objs))], id, id)
+			}
+			out = append(out, dir+"\n"+ext)
+		case 8:
+			// an extension that carries a description of its own
+			out = append(out, fmt.Sprintf("\"described extension %s\"\nextend type %s { xe%s: Boolean }", id, objs[r.Intn(len(objs))], id))
+		case 9:
+			if len(scalars) > 0 {
+				out = append(out, fmt.Sprintf("directive @xs%s on SCALAR\nextend scalar %s @xs%s", id, scalars[r.Intn(len(scalars))], id))
+			} else {
+				out = append(out, fmt.Sprintf("scalar NewSc%s", id))
+			}
 		case 0:
 			out = append(out, fmt.Sprintf("type New%s { a: Int b: [%s] }", id, objs[r.Intn(len(objs))]))
 		case 1:
